@@ -997,6 +997,14 @@ func ruleR30(c *Ctx) {
 									eqConsts = append(eqConsts, sv)
 								}
 							}
+							// in a helper the attribute value is a parameter
+							if id, ok := unparen(x.X).(*ast.Ident); ok && rf != f {
+								if v, ok := objOf(fin, id).(*types.Var); ok && isParam(rf, v) {
+									if sv, ok := constString(fin, x.Y); ok {
+										eqConsts = append(eqConsts, sv)
+									}
+								}
+							}
 						}
 					case *ast.CallExpr:
 						if fn := callee(fin, x); fn != nil && fn.Pkg() != nil && fn.Pkg().Path() == "strings" && fn.Name() == "HasSuffix" && len(x.Args) == 2 {
